@@ -603,6 +603,46 @@ def fam_unknown_template(rng, n):
     return out
 
 
+def fam_orphan(rng, n):
+    """data sets whose template this parser has never seen (data before template, collector restart),
+    in the middle of a buffer: followed by further packets, later followed by the template"""
+    out = []
+    for _ in range(n):
+        ex = Exporter(rng, lossless=True, simple_ipfix=True)
+        proto = rng.choice([9, 10])
+        tid = rng.choice([256, 300, 999])
+        if proto == 9:
+            t = v9_template(rng, tid, lossless=True)
+            sets = [{"data": {"id": tid, "recs": [v9_record(rng, t) for _ in range(rng.randrange(1, 3))], "pad": ""}}]
+            if rng.random() < 0.5:
+                t2 = v9_template(rng, 4242, lossless=True)
+                sets = [{"templates": {"ts": [t2], "pad": ""}}] + sets
+            if rng.random() < 0.4:
+                sets = sets + [{"templates": {"ts": [v9_template(rng, 4343, lossless=True)], "pad": ""}}]
+            orphan = {"v9": {"m": {"count": len(sets), "sysUpTime": 1, "unixSecs": 1, "seq": 1, "sourceId": 1, "sets": sets}}}
+            tmsg = {"v9": {"m": {"count": 1, "sysUpTime": 2, "unixSecs": 2, "seq": 2, "sourceId": 1, "sets": [{"templates": {"ts": [t], "pad": ""}}]}}}
+        else:
+            t = ip_template(rng, tid, lossless=True, varlen=False, enterprise=False)
+            sets = [{"data": {"id": tid, "recs": [ip_record(rng, t["fields"]) for _ in range(rng.randrange(1, 3))], "pad": ""}}]
+            if rng.random() < 0.5:
+                sets = [{"templates": {"ts": [ip_template(rng, 4242, lossless=True, varlen=False, enterprise=False)], "pad": ""}}] + sets
+            if rng.random() < 0.4:
+                sets = sets + [{"templates": {"ts": [ip_template(rng, 4343, lossless=True, varlen=False, enterprise=False)], "pad": ""}}]
+            orphan = {"ipfix": {"m": {"exportTime": 1, "seq": 1, "odid": 1, "sets": sets}}}
+            tmsg = {"ipfix": {"m": {"exportTime": 2, "seq": 2, "odid": 1, "sets": [{"templates": {"ts": [t], "pad": ""}}]}}}
+        before = rand_packets(rng, ex, rng.randrange(0, 2), versions=(5, 7))
+        after = rand_packets(rng, ex, rng.randrange(1, 3))
+        ops = [op_new(0)]
+        o = op_parse(0, msgs=before + [orphan] + after)
+        o["nospec"] = True
+        ops.append(o)
+        o2 = op_parse(0, msgs=[tmsg, orphan] + after)
+        o2["nospec"] = True
+        ops.append(o2)
+        out.append(("orphan-data", ops))
+    return out
+
+
 def fam_common(rng, n):
     """C13: templates made of the projected fields (any subset/order, IPv4 or IPv6), several records
     and data sets; `flat` on a second parser with the same history"""
